@@ -4,19 +4,21 @@ from __future__ import annotations
 import ast
 import copy
 import dataclasses
+import itertools
 import re
 from typing import Any
 
 from jinja2 import nodes
 
 from .. import tplq
+from . import c04_tplwalk as tplwalk
 from ..astutil import Locals, call_name, calls_in, norm, region, short, where
 from ..core import PKG, Report
 from ..jinja_interp import expr_text
 from .c06 import MAY_RAISE, caught, handlers_around
 from .scenario import NONE, UNKNOWN, TooComplex, V, Walker, private_callees
 
-LEVEL = ("structural clauses: under every assignment of the conditions (those around a loop included, macros read in place) each parsed "
+LEVEL = ("structural clauses: under every assignment of the conditions (those around a loop included, macros read in place, loops over literal tables read round by round) each parsed "
          "response gets exactly one status test, the loop that emits it emits a return, and `return None` only where the plain variants are "
          "not generated (truth tables); the unexpected-status tail "
          "(raise or None) is unconditional and the dedicated error's constructor applies no conversion to the body that can raise; the "
@@ -27,14 +29,17 @@ LEVEL = ("structural clauses: under every assignment of the conditions (those ar
          "by empty_response carries the none source; in the scenarios no content / empty content / no schema every feasible path of the "
          "response parser (scenario walker: abstract None-ness / truthiness of locals, helpers walked with their arguments) ends in "
          "empty_response(...) without reaching property_from_data; construct-or-cast; a failing type check of a union member aborts decoding only when "
-         "nothing can follow it (truth table, flag found by role); _build_response (read as Python from the expanded template: macros and call "
+         "nothing can follow it (decided on the decoder function the union construct macro writes for every list of up to three abstract "
+         "members - known by has-construct / has-type-check only - followed symbolically through the template: loops over literal tables, "
+         "call blocks with parameters, accumulating namespaces included); _build_response (read as Python from the expanded template: macros and call "
          "blocks inlined, literal arguments folded) forwards status, content, headers, parsed; "
          "blocking/asyncio parity; in the scenario of an invalid status key every path ends the iteration with a diagnostic recorded and "
          "no response added; reference resolution converges (shared with C20); the source and the schema of a response come from one media "
          "type (provenance of both followed - locals, tuples, generators, next(), helpers, closures - to every Response(...) the parser "
          "builds); for every property template with a construct macro the union decoder emits the member's construct outside try/except "
-         "only when nothing can follow (template facts x guard truth table); the builder renders each operation's module from that "
-         "operation (shared with C16); the async httpx client is constructed with the arguments of the blocking one.")
+         "only when nothing can follow (template facts x the walked decoders); the builder renders each operation's module from that "
+         "operation (shared with C16); the async httpx client is constructed with the arguments of the blocking one; the document fields "
+         "the response parser reads are not rewritten in place (shared with C02).")
 
 
 # ---- helpers -----------------------------------------------------------------------------------------------------------------
@@ -263,6 +268,106 @@ def _inline_macros(body: "list[nodes.Node]", resolve: Any, depth: int = 2) -> "l
             out.append(n2)
         else:
             out.append(n)
+    return out
+
+
+def _literal_elements(it: nodes.Node) -> "list[nodes.Node] | None":
+    """the elements of a literal list / tuple whose elements are constants, names or displays of those (evaluating them has no effect and
+    gives the same value every time: reading the element where the loop variable is read is the same program)"""
+    def plain(e: nodes.Node) -> bool:
+        return isinstance(e, (nodes.Const, nodes.Name)) or (isinstance(e, (nodes.Tuple, nodes.List)) and all(plain(x) for x in e.items))
+
+    return list(it.items) if isinstance(it, (nodes.List, nodes.Tuple)) and it.items and all(plain(x) for x in it.items) else None
+
+
+def _subst_loop(n: nodes.Node, attrs: "dict[str, Any]") -> bool:
+    """replace, in place, `loop.<attr>` of the loop being unrolled (not of a loop nested in it) by its value in this round; False when
+    `loop` is read in any other way (loop.cycle(...), passed on, ...)"""
+    ok = True
+    for fld, val in n.iter_fields():
+        items = val if isinstance(val, list) else [val]
+        for i, x in enumerate(items):
+            if not isinstance(x, nodes.Node):
+                continue
+            if isinstance(x, nodes.Getattr) and isinstance(x.node, nodes.Name) and x.node.name == "loop" and x.attr in attrs:
+                new = nodes.Const(attrs[x.attr], lineno=x.lineno)
+                if isinstance(val, list):
+                    val[i] = new
+                else:
+                    setattr(n, fld, new)
+            elif isinstance(x, nodes.Name) and x.name == "loop":
+                ok = False
+            elif isinstance(x, nodes.For):
+                ok = _subst_loop(x.iter, attrs) and ok        # the iterable is evaluated in this loop; body / else have their own `loop`
+            else:
+                ok = _subst_loop(x, attrs) and ok
+    return ok
+
+
+def _unroll(body: "list[nodes.Node]", depth: int = 3) -> "list[nodes.Node]":
+    """The template body with every `for` over a literal list / tuple (of constants, names, displays of those; no `else`, not recursive)
+    replaced by its rounds written out: in each round the loop variables read as the round's element, `loop.first / last / index /
+    index0 / length` as their values, a `set` variable of the round whose definition has become a literal as that literal (_fold: a
+    conditional over a literal is the arm it selects, a literal that is emitted is template text).  A loop filter stays as an `if`
+    around the round (then `loop.*` is not known and, if read, the loop stays).  Writing n similar pieces of a template as one loop over
+    a table of their differences renders the same text, so rules about what is emitted read the rounds."""
+    out: list[nodes.Node] = []
+    for n in body:
+        if isinstance(n, nodes.For) and depth > 0 and not n.else_ and not n.recursive and _literal_elements(n.iter) is not None:
+            elems = _literal_elements(n.iter) or []
+            targets = [n.target] if isinstance(n.target, nodes.Name) else list(n.target.items) if isinstance(n.target, nodes.Tuple) else None
+            rounds: "list[nodes.Node] | None" = [] if targets is not None and all(isinstance(t, nodes.Name) for t in targets) else None
+            for i, el in enumerate(elems):
+                if rounds is None:
+                    break
+                if isinstance(n.target, nodes.Name):
+                    binding: dict[str, nodes.Node] = {n.target.name: el}
+                elif isinstance(el, (nodes.Tuple, nodes.List)) and len(el.items) == len(targets):
+                    binding = {t.name: x for t, x in zip(targets, el.items)}
+                else:
+                    rounds = None
+                    break
+                attrs = {"first": i == 0, "last": i == len(elems) - 1, "index": i + 1, "index0": i, "length": len(elems),
+                         "revindex": len(elems) - i, "revindex0": len(elems) - i - 1} if n.test is None else {}
+                rnd = copy.deepcopy(n.body)
+                holder = nodes.Scope(rnd)
+                if not _subst_loop(holder, attrs) or (not attrs and any(x.name == "loop" for x in holder.find_all(nodes.Name))):
+                    rounds = None
+                    break
+                # statements in order: a `set` of this round (assigned once in it) whose value is a literal by now is read as that literal
+                assigned: dict[str, int] = {}
+                for a in holder.find_all(nodes.Assign):
+                    if isinstance(a.target, nodes.Name):
+                        assigned[a.target.name] = assigned.get(a.target.name, 0) + 1
+                done: list[nodes.Node] = []
+                for st in rnd:
+                    _subst(st, binding)
+                    if isinstance(st, nodes.Assign) and isinstance(st.target, nodes.Name) and assigned.get(st.target.name) == 1:
+                        v = _fold_expr(st.node)
+                        if isinstance(v, nodes.Const):
+                            binding[st.target.name] = v
+                            continue
+                    done.append(st)
+                if n.test is not None:
+                    test = copy.deepcopy(n.test)
+                    wrap = nodes.Scope([nodes.Output([test])])
+                    _subst(wrap, binding)
+                    done = [nodes.If(wrap.body[0].nodes[0], done, [], [], lineno=n.lineno)]
+                rounds += _unroll(_fold(done), depth - 1)
+            if rounds is not None:
+                out += rounds
+                continue
+        n2 = copy.copy(n)
+        for fld in ("body", "else_"):
+            if isinstance(getattr(n, fld, None), list):
+                setattr(n2, fld, _unroll(getattr(n, fld), depth))
+        if isinstance(n, nodes.If):
+            n2.elif_ = []
+            for el in n.elif_:
+                el2 = copy.copy(el)
+                el2.body = _unroll(el.body, depth)
+                n2.elif_.append(el2)
+        out.append(n2)
     return out
 
 
@@ -893,7 +998,9 @@ def run(rep: Report, ctx: Any) -> str:
                       "every path ends the iteration of the responses loop with a diagnostic appended to the endpoint's errors and nothing "
                       "appended to its responses")
     rep.rule("R04.6", "a union member's failing type check raises outside try/except only if it is the last member and no unmodified "
-                      "member can still accept the value")
+                      "member can still accept the value; in the decoder function the union construct macro writes (walked symbolically for "
+                      "every list of up to three abstract members) every member with a construct macro gets its construct once, in order, "
+                      "and the fall-through `return <value>` is written exactly when a member without one exists")
     rep.rule("R04.8", "raising the dedicated error cannot fail itself: every conversion UnexpectedStatus applies to the raw body of an "
                       "undocumented response is total (bytes.decode with a non-raising error handler) or enclosed by a try catching it")
     rep.rule("R04.7", "resolving a $ref'd component response rebinds only `data`: the threaded state and the naming inputs are the same as "
@@ -914,7 +1021,7 @@ def run(rep: Report, ctx: Any) -> str:
         t2 = jx.templates.get(imported[name][0]) if name in imported else None
         return t2.macros.get(imported[name][1]) if t2 is not None else None
 
-    et_body = _inline_macros(et.tree.body, macro_named)
+    et_body = _unroll(_inline_macros(_unroll(et.tree.body), macro_named))
     top = list(tplq.frags(et_body))
     # The plain variants (`def sync(`) exist exactly when the operation has a typed result; that condition - however it is spelled,
     # named or inlined - is what may decide between "return the decoded value" and "return None" in a status branch.
@@ -1402,101 +1509,149 @@ def run(rep: Report, ctx: Any) -> str:
               rhs="the iteration ends with an append to <endpoint>.errors and none to <endpoint>.responses")
 
     # ---- R04.6 ----------------------------------------------------------------------------------------------------------------
+    # Stated on what the union decoder WRITES, not on how the template keeps its books.  The construct macro of the union template is
+    # walked symbolically (c04_tplwalk: nothing is run, no document value exists) for every list of up to three abstract members, each
+    # known only by two facts about its property template - has a `construct` macro, has a `check_type_for_construct` macro - and for
+    # every assignment of the other conditions the template tests on the way.  Whether the template tracks "an unmodified member was
+    # seen" in a running namespace flag, partitions the members up front (call block, accumulating lists), filters the loop or skips
+    # with `continue` is all the same: the text of the decoder function comes out, the members' own macros as markers.  On that
+    # function (read as Python): a decoding step is a member's construct or the fall-through `return <the value>`; a step - or a type
+    # check's `raise` - that stands outside try/except ends the decoding, so it may be written only when no step of another member
+    # and no fall-through follows it.
     ut = jx.templates.get("property_templates/union_property.py.jinja")
-    cm = ut.macros.get("construct")
-    rep.require(cm, "union construct")
-    frs = list(tplq.frags(cm.body))
-    arms_txt: dict[tuple, str] = {}
-    for f in frs:
-        if f.kind == "data":
-            arms_txt[f.guards] = arms_txt.get(f.guards, "") + f.text
-    bare = [f for f in frs if f.kind == "data" and "raise TypeError()" in f.text and "try:" not in arms_txt.get(f.guards, "")]
-    rep.require(bare, "bare raise TypeError() in union construct")
-    # The "an unmodified member was seen" flag is found by its role, not by its spelling: the namespace attribute that the member loop
-    # sets to true exactly for members whose template has no construct macro (the alias of the member's imported template is part of
-    # the interface; the namespace, its attribute and the loop variable are template-local).
-    MEMBERS = "property.inner_properties"
-    aliases = {x.node.target for x in _tpl_stmts(cm.body, (nodes.Import,)) if x.loops == (MEMBERS,) and f"{MEMBERS}[*].template" in expr_text(x.node.template)}
-    rep.require(aliases, "import of the member's property template in the union construct loop")
-    has_construct = {f"{a}.construct" for a in aliases}
-    flags = set()
-    for x in _tpl_stmts(cm.body, (nodes.Assign,)):
-        if x.loops == (MEMBERS,) and isinstance(x.node.target, nodes.NSRef) and isinstance(x.node.node, nodes.Const) and x.node.node.value is True \
-                and any(tplq.implies(x, hc, False) for hc in has_construct):
-            flags.add(expr_text(x.node.target))
-    rep.require(len(flags) == 1, "the flag the union construct loop sets for members without a construct macro")
-    unmod = next(iter(flags))
+    rep.require(ut is not None and "construct" in ut.macros, "union construct")
+    KINDS = [(c, k) for c in (True, False) for k in (True, False)]
+    MARK = re.compile(r"^__(construct|check)_(\d+)__$")
+
+    def marks(n: ast.AST) -> list[tuple[str, int]]:
+        return [(m.group(1), int(m.group(2))) for x in ast.walk(n) if isinstance(x, ast.Name) for m in [MARK.match(x.id)] if m]
+
+    @dataclasses.dataclass
+    class _Decoder:
+        kinds: tuple
+        env: dict
+        constructs: list        # (member, line, inside try)
+        raises: list            # (member of the nearest marker before it, line, inside try)
+        fallbacks: list         # lines of `return <expression over the parameter>` at the function's top level
+
+        def follows(self, member: int, line: int) -> "str | None":
+            nxt = next((f"the construct of member {j + 1}" for j, ln, _ in self.constructs if ln > line and j != member), None)
+            return nxt or next(("the fall-through return of the value" for ln in self.fallbacks if ln > line), None)
+
+    decoders: list[_Decoder] = []
+    try:
+        for n_members in (1, 2, 3):
+            for kinds in itertools.product(KINDS, repeat=n_members):
+                for env_, text in tplwalk.renderings(jx, ut.name, "construct", list(kinds)):
+                    try:
+                        mod = ast.parse(text)
+                    except SyntaxError:
+                        rep.require(False, f"the text the union construct macro writes for members {kinds} readable as Python")
+                    fns = [f for f in ast.walk(mod) if isinstance(f, ast.FunctionDef)]
+                    d = _Decoder(kinds, env_, [], [], [])
+                    for fn in fns:
+                        par = fn.args.args[0].arg if fn.args.args else None
+                        in_try: dict[int, bool] = {}
+
+                        def visit(stmts: list[ast.stmt], guarded: bool) -> None:
+                            for st in stmts:
+                                in_try[id(st)] = guarded
+                                if isinstance(st, ast.Try):
+                                    visit(st.body, guarded or bool(st.handlers))
+                                    for h in st.handlers:
+                                        visit(h.body, guarded)
+                                    visit(st.orelse, guarded)
+                                    visit(st.finalbody, guarded)
+                                else:
+                                    for fld in ("body", "orelse"):
+                                        sub = getattr(st, fld, None)
+                                        if isinstance(sub, list) and sub and isinstance(sub[0], ast.stmt):
+                                            visit(sub, guarded)
+
+                        visit(fn.body, False)
+                        seen: list[tuple[int, int]] = []     # (line, member) of every marker
+                        for st in [s for s in ast.walk(fn) if isinstance(s, ast.stmt) and id(s) in in_try]:
+                            own = [x for x in ast.iter_child_nodes(st) if not isinstance(x, ast.stmt)]
+                            ms = [m for x in own for m in marks(x)] if not isinstance(st, (ast.FunctionDef, ast.Try)) else []
+                            seen += [(st.lineno, j) for _, j in ms]
+                            for what, j in ms:
+                                if what == "construct":
+                                    d.constructs.append((j, st.lineno, in_try[id(st)]))
+                        for st in [s for s in ast.walk(fn) if isinstance(s, ast.Raise) and id(s) in in_try]:
+                            before = [j for ln, j in sorted(seen) if ln <= st.lineno]
+                            d.raises.append((before[-1] if before else -1, st.lineno, in_try[id(st)]))
+                        d.fallbacks += [st.lineno for st in fn.body if isinstance(st, ast.Return) and st.value is not None and par is not None
+                                        and any(isinstance(x, ast.Name) and x.id == par for x in ast.walk(st.value))]
+                    d.constructs.sort(key=lambda c: c[1])
+                    decoders.append(d)
+    except tplwalk.Cannot as e:
+        rep.require(False, f"the union construct macro can be followed symbolically ({e})")
+    rep.floor("union_decoders_walked", len(decoders), 84)
+
+    def show(d: _Decoder) -> str:
+        names = {(True, True): "construct+check", (True, False): "construct, no check", (False, False): "unmodified", (False, True): "check only"}
+        return "members [" + ", ".join(names[k] for k in d.kinds) + "]" + (f" when {d.env}" if d.env else "")
+
+    undecoded = next((d for d in decoders if [j for j, _, _ in d.constructs] != [i for i, k in enumerate(d.kinds) if k[0]]), None)
+    rep.check(undecoded is None, "R04.6", "union_property.py.jinja::construct::every-member-decoded",
+              f"the union decoder does not write the construct of every member whose template has one, once and in the order of the members "
+              f"({show(undecoded) if undecoded else ''})", where=f"{PKG}/templates/{ut.name}",
+              lhs=[j for j, _, _ in undecoded.constructs] if undecoded else None, rhs="one construct per member with a construct macro, in order")
+    bad_raise = None
     n_b = 0
-    for f in bare:
-        n_b += 1
-        names = tplq.guard_atoms(f)
-        if unmod not in names:
-            rep.fail("R04.6", "union_property.py.jinja::construct::bare-raise", "the unguarded `raise TypeError()` does not depend on whether an "
-                     "unmodified member can still accept the value", where=f"{PKG}/templates/{ut.name}:{f.line}", lhs=names, rhs=unmod)
-            continue
-        bad = None
-        for env in tplq.assignments(names):
-            if tplq.guard_holds(f, env) and (env.get(unmod) or not env.get("loop.last", True)):
-                bad = env
-                break
-        rep.check(bad is None, "R04.6", "union_property.py.jinja::construct::bare-raise",
-                  f"a member's type check raises outside try/except although decoding could continue (e.g. {bad}): a value of a scalar "
-                  "alternative listed before a model makes from_dict / the response parser raise TypeError", where=f"{PKG}/templates/{ut.name}:{f.line}",
-                  lhs=[g for g, _ in f.guards], rhs="implies loop.last and not ns.contains_unmodified_properties")
+    for d in decoders:
+        for j, line, guarded in d.raises:
+            if guarded:
+                continue
+            n_b += 1
+            nxt = d.follows(j, line)
+            if nxt is not None and bad_raise is None:
+                bad_raise = (d, j, nxt)
+    rep.check(bad_raise is None, "R04.6", "union_property.py.jinja::construct::bare-raise",
+              "a member's type check raises outside try/except although decoding could continue" +
+              (f" ({show(bad_raise[0])}: the raise after member {bad_raise[1] + 1}'s check is followed by {bad_raise[2]})" if bad_raise else "") +
+              ": a value of a scalar alternative listed before a model makes from_dict / the response parser raise TypeError",
+              where=f"{PKG}/templates/{ut.name}", lhs=show(bad_raise[0]) if bad_raise else None,
+              rhs="a raise outside try/except only when no other member's construct and no fall-through return follows")
     rep.floor("bare_type_raises", n_b, 1)
     # ---- R04.12: the same condition for the member's construct itself, decided per member template -----------------------------------
-    # What the union decoder emits for a member depends on two facts about the member's template: whether it has a `construct` macro and
-    # whether it has a `check_type_for_construct` macro.  A member's construct emitted outside try/except ends the decoding: whatever
-    # it raises leaves the response parser, and the `return` after it makes every later member unreachable.  So, for every property
-    # template T that defines `construct`: under every assignment of the loop's guard atoms in which the two template facts have the
-    # values they have for T, the construct call is emitted outside a try only when nothing can follow (last member, no unmodified
-    # member).  The two sibling tables (templates with `construct` / with `check_type_for_construct`) and the union's guards are read
-    # together, so adding a construct macro without a type check, dropping a type check, or loosening the union's guard are the same
-    # finding.
+    # A member's construct written outside try/except ends the decoding: whatever it raises leaves the response parser, and the
+    # `return` after it makes every later member unreachable.  So, for every property template T that defines `construct`: in every
+    # walked decoder, a member with T's facts (has construct / has check_type_for_construct) gets its construct outside a try only when
+    # nothing can follow (no other member's construct, no fall-through return).  Adding a construct macro without a type check, dropping
+    # a type check, or loosening the union's guard are the same finding.
     rep.rule("R04.12", "for every property template that defines `construct`: with the template's own facts (has construct / has "
                        "check_type_for_construct) the union decoder emits the member's construct outside try/except only for the last "
                        "member when no unmodified member can still accept the value")
-    has_check = {f"{a}.check_type_for_construct" for a in aliases}
-
-    def member_construct(n: Any) -> bool:
-        while isinstance(n, nodes.Filter) and n.node is not None:
-            n = n.node
-        return isinstance(n, nodes.Call) and isinstance(n.node, nodes.Getattr) and n.node.attr == "construct" and \
-            isinstance(n.node.node, nodes.Name) and n.node.node.name in aliases
-
-    emitted = [f for f in frs if f.kind == "expr" and f.loops == (MEMBERS,) and member_construct(f.node)]
-    rep.require(emitted, "call of the member template's construct macro in the union construct loop")
-    unguarded = [f for f in emitted if "try:" not in arms_txt.get(f.guards, "")]
     n_tpl = 0
     for tname, t in sorted(jx.templates.items()):
         if not tname.startswith("property_templates/") or "construct" not in t.macros or t is ut:
             continue
         n_tpl += 1
         checked = "check_type_for_construct" in t.macros
-        bad_env = None
-        for f in unguarded:
-            names = tplq.guard_atoms(f)
-            for env in tplq.assignments(names):
-                if any(env.get(a) is False for a in has_construct) or any(a in env and env[a] != checked for a in has_check):
-                    continue
-                if tplq.guard_holds(f, env) and (env.get(unmod) or not env.get("loop.last", True)):
-                    bad_env = env
-                    break
-            if bad_env:
+        bad = None
+        for d in decoders:
+            for j, line, guarded in d.constructs:
+                if not guarded and d.kinds[j] == (True, checked):
+                    nxt = d.follows(j, line)
+                    if nxt is not None:
+                        bad = (d, j, nxt)
+                        break
+            if bad:
                 break
         short_name = tname.rsplit("/", 1)[-1]
-        rep.check(bad_env is None, "R04.12", f"union_property.py.jinja::construct::member[{short_name}]::unguarded-only-when-nothing-follows",
+        rep.check(bad is None, "R04.12", f"union_property.py.jinja::construct::member[{short_name}]::unguarded-only-when-nothing-follows",
                   f"a union member rendered by {short_name} ({'with' if checked else 'without'} check_type_for_construct) gets its construct "
-                  f"outside try/except although decoding could continue (e.g. {bad_env}): a value of a later alternative raises out of the "
-                  "response parser instead of being decoded", where=f"{PKG}/templates/{tname}",
+                  f"outside try/except although decoding could continue" +
+                  (f" (e.g. {show(bad[0])}: member {bad[1] + 1}'s construct is followed by {bad[2]})" if bad else "") +
+                  ": a value of a later alternative raises out of the response parser instead of being decoded", where=f"{PKG}/templates/{tname}",
                   lhs={"check_type_for_construct": checked}, rhs="construct inside try/except unless last member and no unmodified member")
     rep.floor("member_templates_with_construct", n_tpl, 5)
-    casts2 = [f for f in frs if f.kind == "data" and not f.loops and "return cast(" in f.text]
-    # emitted exactly when an unmodified member exists: both directions by truth table over the guard's atoms
-    rep.check(bool(casts2) and tplq.implies(casts2[0], unmod, True) and
-              all(tplq.guard_holds(casts2[0], env) for env in tplq.assignments(tplq.guard_atoms(casts2[0])) if env[unmod]),
-              "R04.6", "union_property.py.jinja::construct::fallback-cast",
-              "the fallback `return cast(...)` for unmodified members is missing or mis-guarded", where=f"{PKG}/templates/{ut.name}")
+    # the fall-through is written exactly when a member without a construct macro exists (it is the only way such a member is accepted)
+    miscast = next((d for d in decoders if bool(d.fallbacks) != any(not k[0] for k in d.kinds)), None)
+    rep.check(miscast is None, "R04.6", "union_property.py.jinja::construct::fallback-cast",
+              "the fallback `return cast(...)` for unmodified members is missing or mis-guarded" + (f" ({show(miscast)})" if miscast else ""),
+              where=f"{PKG}/templates/{ut.name}")
 
     # ---- reference convergence (shared with C20) ------------------------------------------------------------------------------
     params = {p.arg for p in rfd.params}
@@ -1543,6 +1698,48 @@ def run(rep: Report, ctx: Any) -> str:
                   "the asyncio variants can see another status / response than the blocking ones for the same call",
                   where=f"{PKG}/templates/client.py.jinja", lhs=asyncio_, rhs=blocking)
     rep.floor("client_classes_with_transports", n_transports, 1)
+
+    # ---- R04.13: what the response parser reads of the document is what the document says (shared with C02) ------------------------
+    # "Decoded according to the documented media type" is decided on the document's own words: the key of a `content` entry is looked
+    # up, as written, in the user's content_type_overrides and classified; the keys of `responses` are the statuses.  A validator of the
+    # document model (or any other code) that rewrites one of the fields the response parser reads - re-spelling media type names,
+    # dropping entries, replacing a schema - changes which status / media type / schema is decoded behind the parser's back, whatever
+    # the parser itself does right.  The fields are found by role: every attribute of a document object (a class of the package that
+    # defines Schema, receiver by abstract type) read in the region of response_from_data / _add_responses or in the arguments they are
+    # called with.  For exactly those fields C02's document-frame rule (every in-place write to the parsed document, validators' results
+    # included, is one of the frozen writers) is claimed here under C04's id, with the same construct keys.
+    from .c02 import _document_frame
+
+    rep.rule("R04.13", "the fields of the parsed document that the response parser reads (found by role: attributes of document objects "
+                       "read in the region of response_from_data / _add_responses and in the arguments of their calls) are not rewritten "
+                       "in place - by a pydantic validator or anywhere else - other than by C02's frozen writers: statuses, media type "
+                       "names and schemas reach the parser as the document wrote them (shared with C02's R02.11)")
+    schema_cls = ix.cls("Schema")
+    rep.require(schema_cls, "class Schema")
+    doc_pkg = schema_cls.module.name.rsplit(".", 1)[0]
+    doc_cls = {c.qual: c for c in ix.classes.values() if c.module.name == doc_pkg or c.module.name.startswith(doc_pkg + ".")}
+    parser_fns = {g.qual: g for f0 in (rfd, ar) for g in region(ix, f0)}
+    entry_names = {rfd.name, ar.name}
+    read_nodes: list[ast.AST] = [g.node for g in parser_fns.values()]
+    for f0 in ix.all_functions:
+        if f0.qual not in parser_fns:
+            read_nodes += [a for c in calls_in(f0.node) if call_name(c).rsplit(".", 1)[-1] in entry_names for a in [*c.args, *[k.value for k in c.keywords]]]
+    doc_reads: set[str] = set()
+    for holder in read_nodes:
+        for n in ast.walk(holder):
+            if isinstance(n, ast.Attribute) and isinstance(n.ctx, ast.Load):
+                av = it.node_av.get(id(n.value))
+                doc_reads |= {f"{doc_cls[t].name}.{n.attr}" for t in (getattr(av, "types", ()) or ()) if t in doc_cls}
+    rep.floor("document_fields_read_by_response_parser", len(doc_reads), 3)
+
+    class _OnlyReadFields(_UnderRule):
+        def check(self, cond: bool, rule: str, construct: str, *a: Any, **k: Any) -> bool:
+            return self._rep.check(cond, self._rule, construct, *a, **k) if construct.rsplit("::", 1)[-1] in doc_reads else True
+
+        def floor(self, *a: Any, **k: Any) -> None:       # the floors of the shared rule are C02's
+            return None
+
+    _document_frame(_OnlyReadFields(rep, "R04.13"), ix, it)
 
     # ---- R04.9: the module of an operation is rendered from that operation (shared with C16) ---------------------------------------
     # Everything above is about what the endpoint template writes for the endpoint it is given; the statuses an operation documents are
